@@ -141,3 +141,19 @@ def op_listing_synth(c):
         return {"raised": type(e).__name__, "msg": str(e)[:200], "where": "%s:%s" % (tb[0], tb[1])}
     return {"raised": None, "stdout": so.getvalue()[:500], "stderr": se.getvalue()[:500], "recs": recs, "text": _noaddr(text),
             "bad": any(_bad_record(x) for x in recs)}
+
+
+def op_unicode_reprs(c):
+    """c = {file}: the operand text (argrepr) of every LOAD_CONST whose constant is a Python 2 unicode object, in co_consts order"""
+    from xdis.load import load_module
+    from xdis.disasm import get_opcode
+    from xdis.bytecode import Bytecode
+    from xdis.cross_types import UnicodeForPython3
+    t = load_module(c["file"])
+    co = t[3]
+    opc = get_opcode(t[0], t[4])
+    by_index = {}
+    for i in Bytecode(co, opc):
+        if i.opname == "LOAD_CONST" and isinstance(co.co_consts[i.arg], UnicodeForPython3):
+            by_index[i.arg] = i.argrepr
+    return [by_index[k] for k in sorted(by_index)]
